@@ -204,7 +204,7 @@ theorem NetInv_topic (n : Net) (u c t : Bytes) (hi : NetInv n) (hc : conforms n 
   · rename_i ch hl
     have hci := hg.chan_inv c ch hl
     have g1 : GInv (setChan n c { ch with topic := t }) :=
-      hg.setChan ⟨hci.name, hc.1.2, hci.key, hci.limit, hci.members_nodup, hci.members_users⟩
+      hg.setChan ⟨hci.name, hc.2, hci.key, hci.limit, hci.members_nodup, hci.members_users⟩
     have g2 : ∀ w c', onChan (setChan n c { ch with topic := t }) w c' = onChan n w c' :=
       onChan_setChan_same hl (fun _ => rfl)
     split
